@@ -27,6 +27,7 @@ def place_demos():
         crate = "tackler-core"
         txt = open(os.path.join(sd, d)).read()
         if "tackler_core" not in txt and "tackler_api" in txt: crate = "tackler-api"
+        os.makedirs(os.path.join(wt, crate, "tests"), exist_ok=True)
         shutil.copy(os.path.join(sd, d), os.path.join(wt, crate, "tests", d))
 def run_demos():
     out = {}
